@@ -32,6 +32,8 @@ def check(ctx, tier):
     tk.purity("C16.c", fs, "arithmetic, reductions and concatenation do not modify their operands", content_only=True)
     W.report(ctx, tk, "C16.f", fs)
     registry(ctx, tk)
+    from .. import hazards as _hz, scopes as _sc
+    _hz.generic(ctx, tk, "C16.z", _sc.scope(tk, "C16"))
     return {}
 
 
@@ -65,6 +67,11 @@ def ufunc_branches(ctx, tk, f, rule, values_attr, geom_attr):
                 roles.append("self")
             elif a.k == "sub" and a.a[0].k == "param" and a.a[0].a[0] == inp and a.a[1].k == "const":
                 roles.append(a.a[1].a[0])
+            elif np_call(a, {"asanyarray", "asarray", "array"}) and a.a[1] and a.a[1][0].k == "sub" and a.a[1][0].a[0].k == "param" and a.a[1][0].a[0].a[0] == inp:
+                roles.append(a.a[1][0].a[1].a[0])
+                ctx.violated(rule, f, "a Python scalar operand reaches the ufunc unconverted (weak-scalar promotion)",
+                             "`%s` wraps the scalar into a 0-d array, a strong type: uint8 run values + 10 are computed in int64 (250 + 10 = 260 instead of wrapping to 4)" % (a,),
+                             node=c.node, key="weak-scalar-%d" % which, engine="E4")
             else:
                 roles.append("?")
         want = ["self", "self"]
@@ -166,6 +173,14 @@ def reductions(ctx, tk):
             okv = (attr_chain(tm.a[1][0]) or ("",))[-1] == "_values"
             ctx.decide("C16.d", h, "the histogram of the run values is weighted by the run lengths", True if (okw and okv) else (False if not okw else None),
                        "weights are %s" % (w,), node=r.ast, engine="E5")
+    # every argument of the handler is forwarded to numpy's histogram
+    for r in ha.cfg.returns():
+        tm = ha.term(r.ast.value, r)
+        if np_call(tm, {"histogram"}):
+            used = {x.a[0] for x in walk(tm) if x.k == "param"}
+            missing = [p_ for p_ in h.params[1:] if p_ not in used]
+            ctx.decide("C16.d", h, "every argument of the histogram handler is forwarded to np.histogram", not missing,
+                       "%s not forwarded: np.histogram(rla, %s=...) silently ignores it" % (missing, missing[0] if missing else ""), node=r.ast, key="forward", engine="E4")
     mn = ctx.func(RL + "mean")
     ma = ctx.fa(mn)
     for r in ma.cfg.returns():
